@@ -19,13 +19,19 @@ from common import GEN, REPO, ensure_repo_on_path, lean_list, lean_str, write_if
 ensure_repo_on_path()
 
 
-def makefile_starts():
-    """The --start options of the Makefile rule that generates _parser.py."""
+def makefile_args():
+    """The command-line arguments of the Makefile rule that generates _parser.py
+    (`python -m lark.tools.standalone ARGS $<`), without the grammar file."""
     text = open(os.path.join(REPO, "Makefile"), encoding="utf-8").read()
     m = re.search(r"lark\.tools\.standalone([^\n|]*)", text)
     if not m:
-        return ["unit", "quantity"], False
-    return re.findall(r"--start\s+(\S+)", m.group(1)), True
+        return ["--start", "unit", "--start", "quantity"], False
+    return [a for a in m.group(1).split() if a not in ("$<", "\\")], True
+
+
+def makefile_starts():
+    args, found = makefile_args()
+    return [args[i + 1] for i, a in enumerate(args[:-1]) if a in ("--start", "-s")], found
 
 
 def normalise(data, memo):
@@ -101,12 +107,46 @@ def shipped():
 
 
 def fresh(starts):
+    """The parser the Makefile rule would generate now: lark's standalone tool builds it with
+    `build_lalr(lalr_argparser.parse_args(ARGS + [grammar]))`; the same call is made here."""
     import lark
+    from lark.tools import build_lalr, lalr_argparser
     path = os.path.join(REPO, "src", "measured", "measured.lark")
-    with open(path, encoding="utf-8") as fh:
-        inst = lark.Lark(fh, parser="lalr", start=starts, source_path=path)
+    args, _ = makefile_args()
+    ns = lalr_argparser.parse_args(args + [path])
+    try:
+        inst, _out = build_lalr(ns)
+    finally:
+        ns.grammar_file.close()
     data, memo = inst.memo_serialize([lark.lexer.TerminalDef, lark.grammar.Rule])
-    return normalise(data, memo), lark.__version__
+    return renumber(normalise(data, memo)), lark.__version__
+
+
+def renumber(g):
+    """lark numbers LALR states in set-iteration order, which varies with the hash seed: give
+    the states a canonical numbering (BFS from the start states, symbols in sorted order)."""
+    new = {}
+    queue = []
+    for name in g["starts"]:
+        st = g["start_states"][name]
+        if st not in new:
+            new[st] = len(new)
+            queue.append(st)
+    while queue:
+        s = queue.pop(0)
+        for sym in sorted(g["states"][s]):
+            act, arg = g["states"][s][sym]
+            if act == "shift" and arg not in new:
+                new[arg] = len(new)
+                queue.append(arg)
+    for st in sorted(g["states"]):          # unreachable states, if any, keep a stable place
+        if st not in new:
+            new[st] = len(new)
+    g["states"] = {new[st]: {sym: (act, new[arg] if act == "shift" else arg) for sym, (act, arg) in row.items()}
+                   for st, row in g["states"].items()}
+    g["start_states"] = {k: new[v] for k, v in g["start_states"].items()}
+    g["end_states"] = {k: new[v] for k, v in g["end_states"].items()}
+    return g
 
 
 def find_iso(a, b):
@@ -135,7 +175,7 @@ def rule_perm(a, b):
     return [(i, idx.get(key(r), len(b["rules"]))) for i, r in enumerate(a["rules"])]
 
 
-def emit_parser(name, g):
+def emit_parser(name, g, row_order=None):
     L = []
     L.append("def %s.rules : List GRule := [" % name)
     L.append(",\n".join(
@@ -162,7 +202,13 @@ def emit_parser(name, g):
     L.append("]")
     L.append("def %s.table : LRTable := { states := [" % name)
     rows = []
-    for st in sorted(g["states"]):
+    order = sorted(g["states"])
+    if row_order is not None:
+        # a dict has no order of its own: list the rows in the order induced by the candidate
+        # state bijection (remaining states after), so that Lean can compare with plain equality
+        first = [q for q in row_order if q in g["states"]]
+        order = first + [q for q in order if q not in set(first)]
+    for st in order:
         cells = []
         for sym in sorted(g["states"][st]):
             act, arg = g["states"][st][sym]
@@ -199,10 +245,11 @@ def main():
     L.append("")
     L.append("def makefileStarts : List String := %s" % lean_list([lean_str(s) for s in starts]))
     L.append("def makefileRuleFound : Bool := %s" % str(found).lower())
+    iso = find_iso(a, b)
     L += emit_parser("shipped", a)
-    L += emit_parser("fresh", b)
+    L += emit_parser("fresh", b, row_order=[q2 for _q, q2 in iso])
     L.append("/-- candidate state bijection shipped -> fresh (untrusted; re-checked in Lean) -/")
-    L.append("def stateIso : List (Nat × Nat) := %s" % lean_list(["(%d, %d)" % p for p in find_iso(a, b)]))
+    L.append("def stateIso : List (Nat × Nat) := %s" % lean_list(["(%d, %d)" % p for p in iso]))
     L.append("/-- rule renumbering shipped -> fresh (by identical origin/expansion/alias) -/")
     L.append("def rulePerm : List (Nat × Nat) := %s" % lean_list(["(%d, %d)" % p for p in rule_perm(a, b)]))
     L.append("")
